@@ -194,7 +194,7 @@ def rule(rng, balanced=True):
                 edits.append(('raddec', a, None, None))
                 bal[a] += 1
         rng.shuffle(edits)
-    return {'frag': f, 'edits': edits, 'name': 'r%d' % rng.randint(0, 99)}
+    return {'frag': f, 'edits': edits, 'name': 'r%d' % rng.randint(0, 99), 'balanced': all(x == 0 for x in bal)}
 
 
 def rule_tokens(r, labels):
